@@ -1,6 +1,7 @@
 import Labella.Model.QP
 import Labella.Proofs.LayoutSep
 import Labella.Proofs.QPLemmas
+import Labella.Proofs.VpscLoops
 import Mathlib.Algebra.Order.Field.Rat
 import Mathlib.Algebra.BigOperators.Group.List.Basic
 import Mathlib.Tactic.Ring
@@ -13,7 +14,14 @@ positive weights and any scales): soundness of the executable certificate checke
 What is proved for all CHAIN instances (every instance labella itself builds): the solver model is feasible and
 optimal (restated from C02).  For general DAG instances the implementation's result is validated per instance by
 the proved checker (see DESIGN.md, C05); the full statement "optimal for every DAG" is FALSE for the code as it is
-(known finding F1): `dag_counterexample`. -/
+(known finding F1): `dag_counterexample`.
+
+Second half of the file: the FEASIBILITY half of C05 for the statement-by-statement transliteration of `vpsc.py`
+(`Model/Vpsc.lean`, tied to the code by exact-arithmetic equality of positions, returned cost and flagged constraints on
+every generated instance): `vpsc_solve_feasible`, `vpsc_solve_feasible_qp` hold for ALL constraint graphs, cyclic
+ones included (invariants: active constraints tight, blocks = connected components of the active graph, that graph a
+forest, block membership lists exact and duplicate-free, every constraint active / flagged / listed as inactive;
+proofs in `Proofs/Vpsc{Frame,Merge,Split,Loops}.lean`). -/
 namespace Labella.C05
 open Labella Labella.QP
 
@@ -89,5 +97,93 @@ theorem chain_instances (eps : ℚ) (heps : 0 ≤ eps) (vars : List Chain.Item) 
   have h1 := Chain.solve_optimal' eps heps vars gaps hlen hw zs hz hfeas
   have h2 := wdist_nonneg vars (Chain.solve eps vars gaps) zs hw
   linarith
+
+
+/-! ## the general solver (transliteration of `vpsc.py`): feasibility on exit, for every constraint graph -/
+
+def qpInst (vars : List (Rat × Rat × Rat)) (cons : List (Nat × Nat × Rat)) : QP.Inst :=
+  { vars := vars.map fun p => { d := p.1, w := p.2.1, s := p.2.2 }, cons := cons.map fun c => { l := c.1, r := c.2.1, g := c.2.2 } }
+
+/-- C05 (feasibility half) for the transliterated solver, for ALL constraint graphs, cyclic ones included: when `solve` returns (no fuel
+exhausted), every constraint it has not flagged unsatisfiable holds up to the solver's own tolerance, and the returned number is the cost of the returned state -/
+theorem vpsc_solve_feasible (vars : List (Rat × Rat × Rat)) (cons : List (Nat × Nat × Rat))
+    (hidx : ∀ c ∈ cons, c.1 < vars.length ∧ c.2.1 < vars.length) (hs : ∀ v ∈ vars, v.2.2 ≠ 0) (fuel sfuel : Nat)
+    (herr : (Vpsc.solve fuel sfuel (Vpsc.init vars cons)).1.err = false) :
+    (∀ ci, ci < cons.length → (Vpsc.getC (Vpsc.solve fuel sfuel (Vpsc.init vars cons)).1 ci).unsat = false →
+        Gen.zeroUpperBound ≤ Vpsc.slack (Vpsc.solve fuel sfuel (Vpsc.init vars cons)).1 ci) ∧
+    (Vpsc.solve fuel sfuel (Vpsc.init vars cons)).2 = Vpsc.cost (Vpsc.solve fuel sfuel (Vpsc.init vars cons)).1 := by
+  obtain ⟨i1, i2, _, _, i5, _, _⟩ := Vpsc.init_inv vars cons hidx hs
+  obtain ⟨_, _, _, s4, s5, s6⟩ := Vpsc.solve_spec fuel sfuel _ i1 (Vpsc.init_varsNodup vars cons hidx)
+    (Vpsc.init_adjNodup vars cons hidx) i2 herr
+  exact ⟨fun ci hci hu => s4 ci (by rw [s5.csize, i5]; exact hci) hu, s6⟩
+
+theorem scaleOf_qpInst (vars : List (Rat × Rat × Rat)) (cs : List QP.Con) (k : Nat) (hk : k < vars.length) :
+    QP.scaleOf { vars := vars.map fun p => { d := p.1, w := p.2.1, s := p.2.2 }, cons := cs } k = vars[k].2.2 := by
+  simp [QP.scaleOf, hk]
+
+theorem pos_positions (st : Vpsc.St) (k : Nat) (hk : k < st.vs.size) :
+    QP.pos (Vpsc.positions st) k = Vpsc.position st k := by
+  simp [QP.pos, Vpsc.positions, hk]
+
+/-- the same in the vocabulary of the optimisation problem `QP`: the returned positions satisfy every unflagged constraint of the instance up to `-ZERO_UPPERBOUND` -/
+theorem vpsc_solve_feasible_qp (vars : List (Rat × Rat × Rat)) (cons : List (Nat × Nat × Rat))
+    (hidx : ∀ c ∈ cons, c.1 < vars.length ∧ c.2.1 < vars.length) (hs : ∀ v ∈ vars, v.2.2 ≠ 0) (fuel sfuel : Nat)
+    (herr : (Vpsc.solve fuel sfuel (Vpsc.init vars cons)).1.err = false) :
+    let st := (Vpsc.solve fuel sfuel (Vpsc.init vars cons)).1
+    let I := qpInst vars cons
+    QP.feasibleB { I with cons := (I.cons.zipIdx.filter (fun p => !(Vpsc.flagged st).contains p.2)).map (·.1) }
+      (-Gen.zeroUpperBound) (Vpsc.positions st) = true := by
+  intro st I
+  obtain ⟨i1, i2, _, i4, i5, i6, i7⟩ := Vpsc.init_inv vars cons hidx hs
+  obtain ⟨_, _, _, s4, s5, _⟩ := Vpsc.solve_spec fuel sfuel _ i1 (Vpsc.init_varsNodup vars cons hidx)
+    (Vpsc.init_adjNodup vars cons hidx) i2 herr
+  have hcs : st.cs.size = cons.length := s5.csize.trans i5
+  have hvs : st.vs.size = vars.length := s5.vsize.trans i4
+  unfold QP.feasibleB
+  simp only [List.all_eq_true, decide_eq_true_eq, neg_neg]
+  intro c hc
+  simp only [List.mem_map, List.mem_filter] at hc
+  obtain ⟨⟨c', i⟩, ⟨hmem, hfl⟩, rfl⟩ := hc
+  have hmem' : I.cons[i]? = some c' := List.mem_zipIdx_iff_getElem?.mp hmem
+  have hi : i < cons.length := by
+    have := (List.getElem?_eq_some_iff.mp hmem').1
+    simpa [I, qpInst] using this
+  have hc' : c' = { l := cons[i].1, r := cons[i].2.1, g := cons[i].2.2 } := by
+    simp [I, qpInst, hi] at hmem'
+    exact hmem'.symm
+  have hu : (Vpsc.getC st i).unsat = false := by
+    simp [Vpsc.flagged] at hfl
+    rcases hfl with h | h
+    · rw [hcs] at h; omega
+    · exact h
+  have hsl := s4 i (by rw [hcs]; exact hi) hu
+  obtain ⟨l1, r1, g1⟩ := i7 i hi
+  have cl : (Vpsc.getC st i).l = cons[i].1 := (s5.cstat i).1.trans l1
+  have cr : (Vpsc.getC st i).r = cons[i].2.1 := (s5.cstat i).2.1.trans r1
+  have cg : (Vpsc.getC st i).g = cons[i].2.2 := (s5.cstat i).2.2.trans g1
+  obtain ⟨hl, hr⟩ := hidx cons[i] (List.getElem_mem _)
+  have sl : (Vpsc.getV st cons[i].1).s = vars[cons[i].1].2.2 := (s5.vstat _).2.2.1.trans (i6 _ hl).2.2
+  have sr : (Vpsc.getV st cons[i].2.1).s = vars[cons[i].2.1].2.2 := (s5.vstat _).2.2.1.trans (i6 _ hr).2.2
+  have e : Vpsc.slack st i = QP.slack { vars := I.vars, cons := (I.cons.zipIdx.filter
+      (fun p => !(Vpsc.flagged st).contains p.2)).map (·.1) } (Vpsc.positions st) c' := by
+    unfold Vpsc.slack QP.slack
+    simp only [hu, Bool.false_eq_true, if_false, cl, cr, cg, sl, sr, hc']
+    rw [show I.vars = vars.map fun p => { d := p.1, w := p.2.1, s := p.2.2 } from rfl]
+    rw [scaleOf_qpInst _ _ _ hr, scaleOf_qpInst _ _ _ hl, pos_positions st _ (by rw [hvs]; exact hr),
+      pos_positions st _ (by rw [hvs]; exact hl)]
+  rw [← e]
+  exact hsl
+
+/-- non-vacuity: two variables wanted at 0 that must be 2 apart end at −1 and 1 (cost 2), no fuel runs out, nothing is flagged -/
+example : (Vpsc.solve 10 10 (Vpsc.init [(0, 1, 1), (0, 1, 1)] [(0, 1, 2)])).1.err = false ∧
+    Vpsc.positions (Vpsc.solve 10 10 (Vpsc.init [(0, 1, 1), (0, 1, 1)] [(0, 1, 2)])).1 = [-1, 1] ∧
+    Vpsc.flagged (Vpsc.solve 10 10 (Vpsc.init [(0, 1, 1), (0, 1, 1)] [(0, 1, 2)])).1 = [] ∧
+    (Vpsc.solve 10 10 (Vpsc.init [(0, 1, 1), (0, 1, 1)] [(0, 1, 2)])).2 = 2 := by decide +kernel
+
+/-- non-vacuity on a cyclic instance (`x₁ ≥ x₀ + 1` and `x₀ ≥ x₁ + 1`): the run ends without error, the second constraint is flagged -/
+example : (Vpsc.solve 10 10 (Vpsc.init [(0, 1, 1), (0, 1, 1)] [(0, 1, 1), (1, 0, 1)])).1.err = false ∧
+    Vpsc.positions (Vpsc.solve 10 10 (Vpsc.init [(0, 1, 1), (0, 1, 1)] [(0, 1, 1), (1, 0, 1)])).1 = [-1 / 2, 1 / 2] ∧
+    Vpsc.flagged (Vpsc.solve 10 10 (Vpsc.init [(0, 1, 1), (0, 1, 1)] [(0, 1, 1), (1, 0, 1)])).1 = [1] := by decide +kernel
+
 
 end Labella.C05
